@@ -18,11 +18,17 @@ thread_local! {
     static BIGGEST: Cell<usize> = const { Cell::new(0) };
 }
 
-static TOTAL: AtomicUsize = AtomicUsize::new(0);
 /// single request ceiling (bytes)
 pub static MAX_SINGLE: AtomicUsize = AtomicUsize::new(3 << 30);
-/// process-wide live ceiling (bytes)
-pub static MAX_TOTAL: AtomicUsize = AtomicUsize::new(24 << 30);
+/// per-thread live ceiling (bytes); a process-wide counter would put one contended cache line
+/// into every allocation of 16 workers
+pub static MAX_TOTAL: AtomicUsize = AtomicUsize::new(6 << 30);
+
+#[inline]
+fn over(n: usize) -> bool {
+    let live = LIVE.try_with(|l| l.get()).unwrap_or(0).max(0) as usize;
+    live.saturating_add(n) > MAX_TOTAL.load(Ordering::Relaxed)
+}
 /// size of the request that was refused (0 = none)
 pub static REFUSED: AtomicUsize = AtomicUsize::new(0);
 
@@ -42,20 +48,18 @@ fn add(n: usize) {
             b.set(n)
         }
     });
-    TOTAL.fetch_add(n, Ordering::Relaxed);
 }
 
 #[inline]
 fn sub(n: usize) {
     let _ = LIVE.try_with(|l| l.set(l.get() - n as isize));
-    TOTAL.fetch_sub(n, Ordering::Relaxed);
 }
 
 unsafe impl GlobalAlloc for Counting {
     unsafe fn alloc(&self, layout: Layout) -> *mut u8 {
         let n = layout.size();
         if n > MAX_SINGLE.load(Ordering::Relaxed)
-            || TOTAL.load(Ordering::Relaxed).saturating_add(n) > MAX_TOTAL.load(Ordering::Relaxed)
+            || over(n)
         {
             REFUSED.store(n, Ordering::SeqCst);
             return std::ptr::null_mut();
@@ -69,7 +73,7 @@ unsafe impl GlobalAlloc for Counting {
     unsafe fn alloc_zeroed(&self, layout: Layout) -> *mut u8 {
         let n = layout.size();
         if n > MAX_SINGLE.load(Ordering::Relaxed)
-            || TOTAL.load(Ordering::Relaxed).saturating_add(n) > MAX_TOTAL.load(Ordering::Relaxed)
+            || over(n)
         {
             REFUSED.store(n, Ordering::SeqCst);
             return std::ptr::null_mut();
@@ -88,8 +92,7 @@ unsafe impl GlobalAlloc for Counting {
         if new_size > layout.size() {
             let extra = new_size - layout.size();
             if new_size > MAX_SINGLE.load(Ordering::Relaxed)
-                || TOTAL.load(Ordering::Relaxed).saturating_add(extra)
-                    > MAX_TOTAL.load(Ordering::Relaxed)
+                || over(extra)
             {
                 REFUSED.store(new_size, Ordering::SeqCst);
                 return std::ptr::null_mut();
@@ -131,6 +134,3 @@ pub fn biggest() -> usize {
     BIGGEST.with(|b| b.get())
 }
 
-pub fn total() -> usize {
-    TOTAL.load(Ordering::Relaxed)
-}
